@@ -95,7 +95,7 @@ def evaluate(case):
             dists = []
             for npts in (15, 25):
                 xg = np.geomspace(1e-2, 1.0, npts).tolist()
-                extra = dict(xgrid=xg, degree=3, cores=case.get("cores", 1), ratios=case.get("ratios", [1.0, 1.0, 1.0]), ref=case.get("ref", [91.2, 5]))
+                extra = dict(xgrid=xg, degree=3, cores=case.get("cores", 6), ratios=case.get("ratios", [1.0, 1.0, 1.0]), ref=case.get("ref", [91.2, 5]))
                 a = cards.solve_ops(_cfg(order, case["iterations"], p0, [p1, p2], extra), tag="c06a")
                 b = cards.solve_ops(_cfg(order, case["iterations"], p1, [p2], extra), tag="c06b")
                 e1 = a[(p1[0] ** 2, p1[1])][0]
